@@ -26,6 +26,37 @@ pub struct PeerShape {
     pub next_off: u64,
     /// number of tracked inflight appends (Replicate only)
     pub inflight: usize,
+    /// matched = base + off (concrete), or symbolic below next_idx.  Concrete where the step
+    /// derives next_idx from matched (become_probe / become_replicate).
+    pub matched_off: Option<u64>,
+    /// Probe: paused flag; all states: recent_active.  Concrete because they decide whether a
+    /// message is emitted (a symbolic number of emitted messages makes every later push costly).
+    pub paused: bool,
+    pub recent_active: bool,
+}
+
+impl PeerShape {
+    pub const fn paused(mut self) -> PeerShape {
+        self.paused = true;
+        self
+    }
+    pub const fn inactive(mut self) -> PeerShape {
+        self.recent_active = false;
+        self
+    }
+    pub const fn probe(id: u64, next_off: u64) -> PeerShape {
+        PeerShape { id, state: ProgressState::Probe, next_off, inflight: 0, matched_off: None, paused: false, recent_active: true }
+    }
+    pub const fn replicate(id: u64, next_off: u64, inflight: usize) -> PeerShape {
+        PeerShape { id, state: ProgressState::Replicate, next_off, inflight, matched_off: None, paused: false, recent_active: true }
+    }
+    pub const fn snapshot(id: u64, next_off: u64) -> PeerShape {
+        PeerShape { id, state: ProgressState::Snapshot, next_off, inflight: 0, matched_off: None, paused: false, recent_active: true }
+    }
+    pub const fn matched(mut self, off: u64) -> PeerShape {
+        self.matched_off = Some(off);
+        self
+    }
 }
 
 #[derive(Clone, Copy)]
@@ -60,6 +91,10 @@ pub struct Shape {
     /// concrete entry types (prost i32 per entry); empty = symbolic.  Needed where the code
     /// scans entries for membership changes and exits early from a consuming iterator.
     pub fixed_etypes: &'static [i32],
+    /// concrete persisted index (offset from base); None = symbolic
+    pub fixed_persisted: Option<u64>,
+    /// concrete (check_quorum, pre_vote, skip_bcast_commit); None = symbolic
+    pub fixed_flags: Option<(bool, bool, bool)>,
 }
 
 pub const V3: &[u64] = &[1, 2, 3];
@@ -84,7 +119,17 @@ impl Shape {
             fixed_applied: None,
             fixed_term: None,
             fixed_etypes: &[],
+            fixed_persisted: None,
+            fixed_flags: None,
         }
+    }
+    pub const fn with_persisted(mut self, p: u64) -> Shape {
+        self.fixed_persisted = Some(p);
+        self
+    }
+    pub const fn with_flags(mut self, check_quorum: bool, pre_vote: bool, skip_bcast: bool) -> Shape {
+        self.fixed_flags = Some((check_quorum, pre_vote, skip_bcast));
+        self
     }
     pub const fn with_etypes(mut self, t: &'static [i32]) -> Shape {
         self.fixed_etypes = t;
@@ -345,10 +390,19 @@ pub fn mk_raft(s: &mut Src, sh: &Shape) -> (Raft<VStore>, Ghost) {
     cfg.heartbeat_tick = HEARTBEAT_TICK;
     cfg.max_inflight_msgs = sh.max_inflight;
     cfg.max_size_per_msg = sh.max_msg_size;
-    cfg.check_quorum = s.bool();
-    cfg.pre_vote = s.bool();
+    match sh.fixed_flags {
+        Some((cq, pv, sk)) => {
+            cfg.check_quorum = cq;
+            cfg.pre_vote = pv;
+            cfg.skip_bcast_commit = sk;
+        }
+        None => {
+            cfg.check_quorum = s.bool();
+            cfg.pre_vote = s.bool();
+            cfg.skip_bcast_commit = s.bool();
+        }
+    }
     cfg.read_only_option = ReadOnlyOption::Safe;
-    cfg.skip_bcast_commit = s.bool();
     cfg.priority = 0;
     // ---- tracker (CI holds by construction of the shape lists)
     let last = sh.last();
@@ -377,7 +431,10 @@ pub fn mk_raft(s: &mut Src, sh: &Shape) -> (Raft<VStore>, Ghost) {
     }
     // ---- cursors (LI)
     let stable_last = sh.base + sh.n_stable as u64;
-    let persisted = s.u64();
+    let persisted = match sh.fixed_persisted {
+        Some(p) => sh.base + p,
+        None => s.u64(),
+    };
     let committed = match sh.fixed_commit {
         Some(c) => sh.base + c,
         None => s.u64(),
@@ -472,12 +529,7 @@ fn leader_progress(s: &mut Src, sh: &Shape, r: &mut Raft<VStore>, g: &Ghost) {
             pr.state = ProgressState::Replicate;
             pr.recent_active = true;
         } else {
-            let mut ps = PeerShape {
-                id,
-                state: ProgressState::Probe,
-                next_off: (last - sh.base) + 1,
-                inflight: 0,
-            };
+            let mut ps = PeerShape::probe(id, (last - sh.base) + 1);
             let mut q = 0;
             while q < sh.peers.len() {
                 if sh.peers[q].id == id {
@@ -488,24 +540,28 @@ fn leader_progress(s: &mut Src, sh: &Shape, r: &mut Raft<VStore>, g: &Ghost) {
             let next = sh.base + ps.next_off;
             assert!(next >= 1 && next <= last + 1, "shape: next_idx out of (0, last+1]");
             pr.next_idx = next;
-            pr.matched = s.u64();
+            pr.matched = match ps.matched_off {
+                Some(o) => sh.base + o,
+                None => s.u64(),
+            };
             vassume!(pr.matched < next);
             pr.state = ps.state;
+            pr.recent_active = ps.recent_active;
             match ps.state {
                 ProgressState::Probe => {
-                    pr.paused = s.bool();
+                    pr.paused = ps.paused;
                 }
                 ProgressState::Replicate => {
-                    // inflight indexes strictly increasing in (matched, next_idx)
+                    // inflight indexes: the last `inflight` indexes below next_idx (concrete: the
+                    // comparison with an acked index decides how many slots are freed, i.e.
+                    // whether more appends are emitted), all in (matched, next_idx)
                     assert!(ps.inflight <= maxinf);
-                    let mut prev = pr.matched;
                     let mut k = 0;
                     let mut ins = Inflights::new(maxinf);
                     while k < ps.inflight {
-                        let v = s.u64();
-                        vassume!(v > prev && v < next);
+                        let v = next - (ps.inflight - k) as u64;
+                        vassume!(v > pr.matched);
                         ins.add(v);
-                        prev = v;
                         k += 1;
                     }
                     pr.ins = ins;
